@@ -147,8 +147,8 @@ Collapses == <<"same_type", "all", "none", "fn">>    \* 'same_type', True, False
 Modes == <<"diff", "same", "both">>
 Forms == <<"flat", "nest">>                         \* flatten=True / flatten=False
 IxOf(s, x) == CHOOSE k \in 1..Len(s) : s[k] = x
-\* the callable of option "fn": collapse values of the same kind (two objects of any classes, two dicts)
-Fn(x, y) == (IsObj(x) /\ IsObj(y)) \/ (IsDict(x) /\ IsDict(y))
+\* the callable of option "fn": collapse values of the same kind (two objects of any classes, two dicts, two lists)
+Fn(x, y) == (IsObj(x) /\ IsObj(y)) \/ (IsDict(x) /\ IsDict(y)) \/ (IsList(x) /\ IsList(y))
 
 \* whether two different values are walked member by member (x, y differ and neither is MISSING)
 Collapse(x, px, y, py, cc) ==
@@ -163,7 +163,7 @@ Collapse(x, px, y, py, cc) ==
 
 \* what the documentation fixes about that decision (everything else is a don't-care):
 MustCollapse(x, px, y, py, cc) ==
-  \/ IsList(x) /\ IsList(y) /\ cc # "none"
+  \/ IsList(x) /\ IsList(y) /\ (cc \in {"all", "fn"} \/ (cc = "same_type" /\ px = py))
   \/ IsDict(x) /\ IsDict(y) /\ (cc \in {"all", "fn"} \/ (cc = "same_type" /\ px = py))
   \/ IsObj(x) /\ IsObj(y) /\ (cc \in {"all", "fn"} \/ (cc = "same_type" /\ x[2][1] = y[2][1]))
   \/ cc = "all" /\ ((IsObj(x) /\ IsDict(y)) \/ (IsDict(x) /\ IsObj(y)))
@@ -173,7 +173,7 @@ MustNotCollapse(x, px, y, py, cc) ==
   \/ /\ cc \in {"same_type", "none"}
      /\ ClsOf(x, px) # ClsOf(y, py)
      /\ ~(DictFam(ClsOf(x, px)) /\ DictFam(ClsOf(y, py)))
-  \/ cc = "fn" /\ ~IsList(x) /\ ~Fn(x, y)
+  \/ cc = "fn" /\ ~Fn(x, y)
 
 -----------------------------------------------------------------------------
 (* Reference: the entries of the walk *)
@@ -270,14 +270,14 @@ RefEntries(a, b, cc, m) ==
 Visited(E) == UNION {{SubSeq(e.p, 1, k) : k \in 0..(Len(e.p) - 1)} : e \in E}
 
 \* zones in which the reference is not determined by the documentation: numbers equal across types at the same
-\* position; dict versus pg.Dict under 'same_type'; collapse=False as a whole
+\* position; dict versus pg.Dict and list versus pg.List under 'same_type'; collapse=False as a whole
 RECURSIVE Undet(_, _, _, _, _)
 Undet(x, px, y, py, cc) ==
   IF IsMis(x) \/ IsMis(y) THEN FALSE
   ELSE IF IsNum(x) /\ IsNum(y) THEN Tag(x) # Tag(y) /\ Num(x) = Num(y)
   ELSE IF ~(IsCont(x) /\ IsCont(y)) THEN FALSE
   ELSE IF ~EqV(x, y) /\ ~Collapse(x, px, y, py, cc) THEN FALSE
-  ELSE \/ ~EqV(x, y) /\ IsDict(x) /\ IsDict(y) /\ px # py /\ cc = "same_type"
+  ELSE \/ ~EqV(x, y) /\ Tag(x) = Tag(y) /\ ~IsObj(x) /\ px # py /\ cc = "same_type"
        \/ \E k \in KeySet(x) \cap KeySet(y) :
             Undet(Child(x, k), px \/ IsObj(x), Child(y, k), py \/ IsObj(y), cc)
 Determined(a, b, cc) == cc # "none" /\ ~Undet(V(a), Pg(a), V(b), Pg(b), cc)
